@@ -436,7 +436,7 @@ class SecopClient(ProxyClient):
             while self._running:
                 while self.cleanup:
                     entry = self.cleanup.pop()
-                    for key, prev in self.active_requests.items():
+                    for key, prev in list(self.active_requests.items()):
                         if prev is entry:
                             self.active_requests.pop(key)
                             break
